@@ -41,7 +41,8 @@ def run(chk, replay=None):
     # (V) the real code
     trace = os.path.join(w, "trace.ndjson")
     scratch = os.path.join(w, "scratch")
-    args = ["c18", "--seed", chk.seed, "--shapes", shapes, "--scratch", scratch]
+    # a share of the cases also goes through the real ymcls program built from the tree under test
+    args = ["c18", "--seed", chk.seed, "--shapes", shapes, "--scratch", scratch, "--ymcls", core.build_cli("release")["ymcls"]]
     if thorough:
         args += ["--reps", 4, "--small-stride", 1, "--maxlines", 250, "--xcheck", 40, "--count-bound", 2 ** 30 - 1, "--npow", 4]
     else:
@@ -99,6 +100,7 @@ def run(chk, replay=None):
     chk.cov["results_by_class"] = classes
     chk.cov["results_by_size_bits"] = sizes
     chk.cov["results_by_threads"] = threads
+    chk.cov["results_through_ymcls_program"] = sum(1 for e in evs if e["op"] == "result" and e.get("cli"))
     chk.cov["h_checked_against_form_count"] = sum(1 for e in evs if e["op"] == "result" and "n" in e)
     chk.cov["lagrange_checked_prime_forms"] = sum(len(e.get("pw", [])) for e in evs if e["op"] == "result")
     chk.cov["two_rank_checked"] = sum(1 for e in evs if e["op"] == "result" and "facs" in e)
